@@ -42,3 +42,70 @@ REG['C01'] = {
     'L': [],
     'trusted': ['kani::stub_verified replaces JulianDay::from_ymd_hms / get_solar_time by their (separately proved) contracts in the caller harnesses'],
 }
+
+
+REG['C03'] = {
+    'level': 'proof',
+    'design_ref': '5/C03',
+    'technique': 'Verus on LunarMonth::next / LunarYear::get_months extracted verbatim (uninterpreted leap table) + leaf contract of LunarMonth::new executed over all lunations',
+    'level_text': 'Deductive part (proof, all inputs, any leap table): month stepping moves the absolute month ordinal by exactly n for every n and every assignment of leap months, the decoded month/leap flag is the one at that position (leap month directly after its twin), from_ym is never refused, next(n).next(-n) is the identity, a year lists exactly its 12/13 months in order. Leaf part (bounded, exhaustive execution, NOT proof): LunarMonth::new over all 123,684 lunations of years 0..9999 - 29/30 days, abutting months incl. year ends, 353-355/383-385 days, month/day counts == new-year distance.',
+    'level_note': 'assumed (class L, checked by exhaustive execution each run): contract of LunarMonth::new / LunarYear::get_leap_month (astronomy + packed table); LunarMonth::from_ym == new (cache wrapper, see C10); Verus/Z3 trusted; extraction drops pub/docs and maps format! to an opaque message',
+    'functions': ['LunarMonth::next', 'LunarMonth::get_month_with_leap', 'LunarMonth::get_year', 'LunarYear::new', 'LunarYear::from_year', 'LunarYear::next', 'LunarYear::get_year', 'LunarYear::get_month_count', 'LunarYear::get_months', 'LunarMonth::new (leaf)', 'LunarYear::get_leap_month (leaf)'],
+    'V': [
+        dict(id='c03_month_step', template='verus/c03_month_step.rs', twin_quick=True,
+             twin=[('r.ord() == self.ord() + n,', 'r.ord() == self.ord() + n + 1,')],
+             clause='LunarMonth::next moves the month ordinal by exactly n (any leap table); get_months lists ordinals mb(y)..mb(y)+msize(y)-1; from_ym never refused',
+             paired_leaf=[dict(id='c03_step_search', check='c03_month_step', range=(0, 9999), chunks=32)]),
+    ],
+    'L': [
+        dict(id='L-NEW', check='l_new', range=(0, 9999), chunks=32, exhaustive=True, domain='every lunation of lunar years 0..9999 + refused month numbers',
+             clause='LunarMonth::new: Ok <=> valid month; index sequential; 29/30 days; first(next) == first + count incl. year ends; year 353-355/383-385 days'),
+        dict(id='c03_month_step', check='c03_month_step', range=(0, 9999), chunks=32, exhaustive=False, domain='every month of years 0..9999 x steps {-40..40, +-100, +-1237}',
+             clause='next(n) lands on the month n places later in the month list; next(n).next(-n) == self; year listing == stepping'),
+    ],
+}
+
+REG['C06'] = {
+    'level': 'proof',
+    'design_ref': '5/C06',
+    'technique': 'Verus on SolarDay::get_term_day / SolarTime::get_term extracted verbatim (uninterpreted monotone term table) + Kani on the term index/year carry + leaf contracts L-TD/L-TI executed over all terms',
+    'level_text': 'Deductive part: both searches return the unique term k with T(k) <= x < T(k+1) and day index x - TD(k), for every date/instant and ANY strictly increasing term table (Verus, real loops incl. the forward walk); SolarTerm::from_index/next year-index carry for every (year, index) with astronomy stubbed out (Kani). Leaf part (bounded, exhaustive execution): the 239,976 term days/instants of years 1..9999 are strictly increasing, 14-16 days / 14.6-15.8 d apart, day == civil day of the instant; plus the composite day->term over every civil date and instant->term around every term instant.',
+    'level_note': 'assumed (class L): term day / instant functions (ShouXing series) satisfy L-TD/L-TI - checked by exhaustive execution, not proved; SolarDay::is_before/subtract contracts are proved in C01; SolarTime::is_before in C12; Verus extraction as in DESIGN 2.4',
+    'functions': ['SolarDay::get_term_day', 'SolarTime::get_term', 'SolarTerm::from_index', 'SolarTerm::next', 'SolarTerm::is_jie/is_qi', 'SolarTerm::get_julian_day (leaf)', 'ShouXingUtil::calc_qi / qi_accurate2 (leaf)'],
+    'K': [
+        dict(id='c06_k_from_index', fn='SolarTerm::from_index', clause='year == floor((24*year+index)/24), index == (24*year+index) mod 24 for 0<=year<=10000, |index|<=100000, total >= 0; independent of the astronomy (calc_qi stubbed by a nondeterministic f64)'),
+        dict(id='c06_k_next', fn='SolarTerm::next', clause='next(n) has absolute number k+n (calc_qi stubbed)'),
+        dict(id='c06_k_parity', fn='SolarTerm::is_jie / is_qi', clause='is_jie <=> odd index, is_qi <=> even index, for all 24 indices'),
+    ],
+    'V': [
+        dict(id='c06_term_search', template='verus/c06_term_search.rs', twin_quick=True,
+             twin=[('r.term_k() < K_MAX ==> self.jdn() < TD(r.term_k() + 1),', 'r.term_k() < K_MAX ==> self.jdn() < TD(r.term_k()),')],
+             clause='get_term_day / get_term return the unique interval [T(k), T(k+1)) containing the date / instant; day index == jdn - TD(k)',
+             paired_leaf=[dict(id='c06_search', check='c06_day_term', range=(1, 9999), chunks=32), dict(id='c06_search_t', check='c06_time_term', range=(1, 9998), chunks=32)]),
+    ],
+    'L': [
+        dict(id='L-TD/L-TI', check='l_td', range=(1, 9999), chunks=32, exhaustive=True, domain='all terms k=25..239999', clause='term days strictly increasing 14..16 apart, instants 14.6..15.8 d apart, day == civil day of instant (to the second)'),
+        dict(id='c06_day_term', check='c06_day_term', range=(1, 9999), chunks=64, exhaustive=True, domain='every civil date 0001-01-06..9999-12-31', clause='get_term_day == latest term on or before, index == days since'),
+        dict(id='c06_time_term', check='c06_time_term', range=(1, 9998), chunks=64, domain='every term x {instant, -1s, +1s, random, last second}', clause='get_term == latest term starting on or before the instant'),
+        dict(id='c06_term_step', check='c06_term_step', range=(1, 9998), chunks=64, domain='every term x 14 step counts', clause='stepping == constructing (year carry both directions)'),
+    ],
+}
+
+REG['C02'] = {
+    'level': 'proof',
+    'design_ref': '5/C02',
+    'technique': 'Verus on SolarDay::get_lunar_day extracted verbatim (uninterpreted tiling month table) + bijection/order lemmas + exhaustive execution of both conversions over every date',
+    'level_text': 'Deductive part: get_lunar_day returns the month o and day d with FIRST(o)+d-1 == day number and 1<=d<=CNT(o), never refused, for ANY month table that tiles (real loops incl. forward walk); lemmas: tiling => disjoint month intervals => both round trips are identities, consecutive days map to day+1 or day 1 of the next month, (month position, day) order <=> chronological order. Leaf part (bounded, exhaustive execution): every civil date 0001..9999 and every lunar day of years 0..9999 through both conversions, acceptance of day 0 / count+1, before/after over all neighbouring-month pairs incl. leap twins.',
+    'level_note': 'assumed (class L): L-NEW tiling (false at four reform-year boundaries = known findings, excluded from the Verus precondition `tiles`), LunarMonth::next contract proved in C03, SolarDay::subtract in C01; LunarDay::new/get_solar_day use RefCell/f64 and are covered by the exhaustive leaf run only',
+    'functions': ['SolarDay::get_lunar_day', 'LunarDay::new (leaf)', 'LunarDay::get_solar_day (leaf)', 'LunarDay::is_before/is_after (leaf)', 'LunarDay::next (leaf)'],
+    'V': [
+        dict(id='c02_lunar_conv', template='verus/c02_lunar_conv.rs', twin_quick=True,
+             twin=[('FIRST(r.month_ord()) + r.day() - 1 == self.jdn(),', 'FIRST(r.month_ord()) + r.day() == self.jdn(),')],
+             clause='get_lunar_day: FIRST(month)+day-1 == jdn, 1<=day<=CNT; from_ymd never refused; bijection / consecutive / order lemmas',
+             paired_leaf=[dict(id='c02_search', check='c02_solar_side', range=(1, 9999), chunks=32)]),
+    ],
+    'L': [
+        dict(id='c02_solar_side', check='c02_solar_side', range=(1, 9999), chunks=64, exhaustive=True, domain='every civil date 0001-01-01..9999-12-31', clause='civil -> lunar -> civil identity; consecutive days'),
+        dict(id='c02_lunar_side', check='c02_lunar_side', range=(0, 9999), chunks=64, exhaustive=True, domain='every lunar day of lunar years 0..9999 + day 0 / count+1; order over 3-month windows', clause='lunar -> civil -> lunar identity; acceptance; before/after == chronological'),
+    ],
+}
